@@ -90,7 +90,7 @@ func localInts(xs []int) *Val {
 }
 
 func checkRSWhole(c *Ctx, r *Report) {
-	r.Rule("S-RSWHOLE", "ReedSolomonEncoder.Encode and ReedSolomonDecoder.Decode, folded from source together with every function of the package they call (generator cache, GenericGFPoly arithmetic, Euclid, Chien search, Forney), agree with the checker's own field arithmetic on complete small domains: Encode leaves the data symbols in place and appends exactly the remainder of x^r d(x) by the generator for every data word of the listed (field, k, r); Decode returns without error and leaves exactly the codeword for every error pattern of weight <= floor(r/2) on the listed (field, k, r) - over GF(16) with generator base 1 (the Aztec parameter field) and base 0 (the QR convention on the small field), including full-length words (k + r = 15), and over both 256-element fields for weight <= 1", 8)
+	r.Rule("S-RSWHOLE", "ReedSolomonEncoder.Encode and ReedSolomonDecoder.Decode, folded from source together with every function of the package they call (generator cache, GenericGFPoly arithmetic, Euclid, Chien search, Forney), agree with the checker's own field arithmetic on complete small domains: Encode leaves the data symbols in place and appends exactly the remainder of x^r d(x) by the generator for every data word of the listed (field, k, r); Decode returns without error and leaves exactly the codeword for every error pattern of weight <= floor(r/2) on the listed (field, k, r) - over GF(16) with generator base 1 (the Aztec parameter field) and base 0 (the QR convention on the small field), including full-length words (k + r = 15), and over both 256-element fields for weight <= 1; with a single check symbol the uncorrupted word passes; the encoder domains include parity counts whose generator has a coefficient 1", 13)
 	efd, ep := c.funcDeclOf("common/reedsolomon", "ReedSolomonEncoder.Encode")
 	dfd, dp := c.funcDeclOf("common/reedsolomon", "ReedSolomonDecoder.Decode")
 	if efd == nil || dfd == nil {
@@ -110,6 +110,9 @@ func checkRSWhole(c *Ctx, r *Report) {
 		{gf16b1, "GF(16)/0x13 base 1", 1, 1, 0, 0, nil}, {gf16b1, "GF(16)/0x13 base 1", 1, 3, 0, 0, nil}, {gf16b1, "GF(16)/0x13 base 1", 2, 2, 0, 0, nil}, {gf16b1, "GF(16)/0x13 base 1", 2, 4, 0, 0, nil},
 		{gf16b0, "GF(16)/0x13 base 0", 2, 3, 0, 0, nil},
 		{qr, "GF(256)/0x11D base 0", 1, 2, 0, 0, nil}, {dm, "GF(256)/0x12D base 1", 1, 3, 0, 0, nil},
+		// parity counts whose generator has a coefficient 1 below the leading one (x - 1 over the QR field; five check
+		// symbols over GF(16), the Aztec mode message): an implementation in the log domain meets log 1 = 0 there
+		{qr, "GF(256)/0x11D base 0", 1, 1, 0, 0, nil}, {gf16b1, "GF(16)/0x13 base 1", 1, 5, 0, 0, nil}, {gf16b1, "GF(16)/0x13 base 1", 2, 5, 0, 0, nil},
 	}
 	decDoms := []rsDom{
 		{gf16b1, "GF(16)/0x13 base 1", 2, 2, 1, 0, nil}, {gf16b1, "GF(16)/0x13 base 1", 2, 4, 2, 0, nil},
@@ -119,6 +122,8 @@ func checkRSWhole(c *Ctx, r *Report) {
 		// full-length words: k + r = |F| - 1
 		{gf16b1, "GF(16)/0x13 base 1", 13, 2, 1, 0, nil}, {gf16b0, "GF(16)/0x13 base 0", 12, 3, 1, 0, nil},
 		{qr, "GF(256)/0x11D base 0", 2, 2, 1, 0, nil}, {dm, "GF(256)/0x12D base 1", 2, 3, 1, 0, nil},
+		// a single check symbol corrects nothing: the uncorrupted word passes
+		{gf16b1, "GF(16)/0x13 base 1", 2, 1, 0, 0, nil}, {qr, "GF(256)/0x11D base 0", 3, 1, 0, 0, nil},
 	}
 	if c.Tier == "thorough" {
 		encDoms = append(encDoms, rsDom{gf16b1, "GF(16)/0x13 base 1", 3, 5, 0, 0, nil}, rsDom{gf16b0, "GF(16)/0x13 base 0", 3, 2, 0, 0, nil}, rsDom{qr, "GF(256)/0x11D base 0", 2, 4, 0, 0, nil})
@@ -386,4 +391,113 @@ type rsDom struct {
 	maxW  int     // decoder: error weight explored (== r/2 unless stated)
 	words int     // encoder: 0 = all size^k data words
 	sets  [][]int // decoder: when set, only error patterns whose positions are exactly one of these sets (every value combination)
+}
+
+// S-RSCTOR / S-RSHIST: the codec objects are what their constructors' arguments say, and stay so between calls
+func checkRSInstances(c *Ctx, r *Report) {
+	r.Rule("S-RSCTOR", "NewReedSolomonEncoder(f) and NewReedSolomonDecoder(f), folded from source, return an object of the field f they were given - for the QR field and then for the Data Matrix field, which has the same size - and the encoder's generator cache starts as the single polynomial 1 over f", 2)
+	r.Rule("S-RSHIST", "one ReedSolomonDecoder instance, built by folding its constructor, used for a sequence of Decode calls with decreasing and increasing numbers of check symbols (4, 2, 2, 6, 2 over GF(16); 4, 2 over GF(256)/0x11D), each word one symbol away from a codeword: every call returns without error and leaves exactly the codeword, as a fresh instance does - nothing of an earlier word survives in the instance", 2)
+	qr := newRefGF(0x11D, 256, 0)
+	dm := newRefGF(0x12D, 256, 1)
+	gf16 := newRefGF(0x13, 16, 1)
+	hooks := func() *rpf {
+		h := &rpf{unroll: 100000, maxSteps: 2000000, env: map[types.Object]*Val{}}
+		h.callHook = func(rr *rpf, call *ast.CallExpr, callee types.Object) (*Val, bool) {
+			return errCtorHook(rr, call, callee)
+		}
+		return h
+	}
+	build := func(name string, f *Val) (*Val, string) {
+		fd, p := c.funcDeclOf("common/reedsolomon", name)
+		if fd == nil {
+			return nil, "?" + name + " not found"
+		}
+		res, err := c.rpfCall(fd, p, []*Val{f}, hooks())
+		if err != nil {
+			return nil, "?" + name + ": " + err.Error()
+		}
+		if len(res) != 1 || res[0].K != VStruct {
+			return nil, "?" + name + " does not return an object"
+		}
+		if res[0].Fields["field"] != f {
+			return nil, name + " returns an object whose field is not the field it was given"
+		}
+		return res[0], ""
+	}
+	for _, name := range []string{"NewReedSolomonEncoder", "NewReedSolomonDecoder"} {
+		key := "common/reedsolomon." + name
+		r.Analysed(key)
+		fd, _ := c.funcDeclOf("common/reedsolomon", name)
+		if fd == nil {
+			r.AnchorLost("S-RSCTOR", key, "constructor not found")
+			continue
+		}
+		bad := ""
+		var prev *Val
+		for _, g := range []*refGF{qr, dm} {
+			f := g.fieldVal()
+			o, b := build(name, f)
+			if b != "" {
+				bad = b
+				break
+			}
+			if o == prev {
+				bad = name + " returns the same object for two fields"
+				break
+			}
+			prev = o
+			if name == "NewReedSolomonEncoder" {
+				cg := o.Fields["cachedGenerators"]
+				if cg == nil || cg.K != VList || len(cg.L) != 1 || cg.L[0].K != VStruct || cg.L[0].Fields["field"] != f {
+					bad = "the new encoder's generator cache is not one polynomial over the given field"
+					break
+				}
+				if co, ok := listInts(cg.L[0].Fields["coefficients"]); !ok || fmt.Sprint(co) != "[1]" {
+					bad = fmt.Sprintf("the new encoder's generator cache starts with the polynomial %v, not 1", co)
+					break
+				}
+			}
+		}
+		reportFold(r, c, "S-RSCTOR", key, fd.Pos(), bad)
+	}
+	dfd, dp := c.funcDeclOf("common/reedsolomon", "ReedSolomonDecoder.Decode")
+	cfd, _ := c.funcDeclOf("common/reedsolomon", "NewReedSolomonDecoder")
+	if dfd == nil || cfd == nil {
+		r.AnchorLost("S-RSHIST", "common/reedsolomon.ReedSolomonDecoder", "Decode / constructor not found")
+		return
+	}
+	for _, seq := range []struct {
+		g    *refGF
+		name string
+		rs   []int
+	}{{gf16, "GF(16)/0x13 base 1", []int{4, 2, 2, 6, 2}}, {qr, "GF(256)/0x11D base 0", []int{4, 2}}} {
+		key := "common/reedsolomon.ReedSolomonDecoder one instance, " + seq.name
+		r.Analysed(key)
+		dec, bad := build("NewReedSolomonDecoder", seq.g.fieldVal())
+		for i, rr := range seq.rs {
+			if bad != "" {
+				break
+			}
+			data := []int{(3*i + 5) % seq.g.size, (7*i + 2) % seq.g.size}
+			cw := append(append([]int{}, data...), seq.g.parity(data, rr)...)
+			rcv := append([]int{}, cw...)
+			rcv[i%len(rcv)] ^= 1 + i%3
+			word := localInts(rcv)
+			h := hooks()
+			h.env[recvObj(dp, dfd)] = dec
+			res, err := c.rpfCall(dfd, dp, []*Val{word, vint(int64(rr))}, h)
+			if err != nil {
+				bad = "?" + err.Error()
+				break
+			}
+			if len(res) != 1 || res[0].K != VNil {
+				bad = fmt.Sprintf("call %d on one instance, Decode(%v, %d) - codeword %v with one symbol changed - reports an error (check symbol counts so far: %v)", i+1, rcv, rr, cw, seq.rs[:i+1])
+				break
+			}
+			if got, ok := listInts(word); !ok || fmt.Sprint(got) != fmt.Sprint(cw) {
+				bad = fmt.Sprintf("call %d on one instance, Decode(%v, %d) leaves %v, not the codeword %v", i+1, rcv, rr, got, cw)
+			}
+		}
+		reportFold(r, c, "S-RSHIST", key, dfd.Pos(), bad)
+	}
 }
